@@ -127,7 +127,7 @@ impl<const B: Word> Repr<B> {
             }
 
             let has_sign = (negative || f.sign_plus()) as usize;
-            let has_radix_point = if exp > 0 {
+            let has_radix_point = if exp >= 0 {
                 // if there's no fractional part, the result has the floating point
                 // only if the precision is set to be non-zero
                 f.precision().unwrap_or(0) > 0
@@ -361,6 +361,9 @@ impl<const B: Word> Repr<B> {
 
             if width >= min_width {
                 (0, 0)
+            } else if f.sign_aware_zero_pad() {
+                // as in fmt_round (and core::fmt): the zero flag overrides fill and alignment
+                (min_width - width, 0)
             } else {
                 match f.align() {
                     Some(Alignment::Left) => (0, min_width - width),
